@@ -66,11 +66,11 @@ def model_check(cfgs):
     from concurrent.futures import ThreadPoolExecutor
     jobs = [(c, "hold") for c in cfgs] + [("MC_KV_live", "live")] + CARELESS
 
-    BIG = ("MC_KV", "MC_KV_thorough", "MC_KV_wide")
+    BIG = ("MC_KV", "MC_KV_thorough", "MC_KV_wide", "MC_KV_reads")
 
     def lane(mine):
         # the large data configurations run without -coverage (their actions are all taken in the smaller ones, which are counted)
-        return [((cfg, kind), vlib.tlc("mc/MC_KV", "mc/" + cfg, workers=3 if cfg in BIG else 1, coverage=(kind == "hold" and cfg not in BIG),
+        return [((cfg, kind), vlib.tlc("mc/MC_KV", "mc/" + cfg, workers=3 if cfg in BIG else 1, coverage=(kind == "hold" and cfg not in BIG[:3]),
                                        timeout=1500, deadlock=(kind in ("live", "deadlock")))) for cfg, kind in mine]
     with ThreadPoolExecutor(max_workers=2) as ex:
         a = ex.submit(lane, [j for j in jobs if j[0] in BIG])
@@ -339,6 +339,11 @@ def run_gate(rep, wd):
     if cls == "hang":
         rep.violation("kv:resize:deferred:hang:%s" % res.get("phase"), case,
                       "deferred-resize scenario: a store call did not return within %s s, twice: %s" % (res.get("bound_s"), json.dumps(res)))
+    elif cls == "remapped":
+        rep.violation("kv:resize:deferred:remapped_under_iterator", case,
+                      "the memory map of the data file was replaced (%s -> %s bytes) while another thread held an open store iterator "
+                      "(its read transaction is not among the open transactions the enlargement waits for): %s"
+                      % (res.get("map_before"), res.get("map_after"), json.dumps(res)))
     elif not res.get("reached"):
         if cls == "fill_error" and "MAP_FULL" in str(res.get("error")):
             rep.violation("kv:resize:fill:mapfull", case, "small batches (4 KiB) ran out of space while filling: %s" % json.dumps(res))
@@ -399,6 +404,10 @@ def run_nested(rep, wd, seed):
         else:
             rep.violation("kv:nested:hang:in=%s" % op, case, "nested-transactions scenario: a store call did not return (%s s, twice): %s"
                           % (res.get("bound_s"), json.dumps(res)))
+    elif cls == "remapped":
+        rep.violation("kv:nested:remapped_under_own_iterator:when=%s" % res.get("kind"), case,
+                      "the memory map of the data file was replaced while the thread held its store iterator (round %s, %s): %s"
+                      % (res.get("round"), res.get("kind"), res.get("error")))
     elif cls in ("mapfull", "error", "panic"):
         rep.violation("kv:nested:%s:%s:when=%s" % (cls, res.get("op"), res.get("kind")), case,
                       "nested-transactions scenario: operation failed: %s" % json.dumps(res))
